@@ -51,6 +51,7 @@ NOTES = {
     'C16_7': 'C++ outputs requested too; every generated header must compile on its own',
     'C17_6': 'patch files whose rules are keyed on the new name of a renamed message (both orders), rename + retype chains',
     'C17_7': 'typedefs (one and two levels) of a struct that is dynamic only through a nested dynamic struct',
+    'C20_6': 'isar case whose expressions and array sizes mention enumerators of several enums defined after them',
     'C12_5': 'every rule breaker also as second input of a run whose first file uses the same names harmlessly',
     'C12_7': 'bisection of failing batches capped (the run took hours when nearly every state failed to compile)',
 }
